@@ -1,5 +1,195 @@
-import LitexModel.Axi.Burst2Beat
-import LitexModel.Axi.BurstSpec
-import LitexModel.Axi.WidthConv
+import LitexProofs.Axi.Burst2BeatSys
+import LitexProofs.Axi.WidthConv
+/-
+  C10 — AXI bursts are expanded and resized according to the AXI address rules.
+
+  Model: `Litex.Axi.b2b` is `AXIBurst2Beat` with every register truncation explicit (8-bit beat_count, 12-bit
+  beat_size/beat_wrap, 13-bit signed beat_offset, the mask test `(addr & wrap) == wrap`, the override order of the
+  two beat_offset assignments); `Litex.Axi.sys` is the module driven by a protocol-legal AXI master (a request that
+  was offered and not accepted is held unchanged).  A run is a list `ins : List SysIn`: per cycle the environment
+  chooses whether the idle master starts to offer, the request (garbage on the lines when it does not), and
+  `ax_beat.ready` — every request sequence, every idle gap and every stall pattern on the beat stream.
+  `axiSpecAddr` / `Legal` are written from AMBA AXI A3.4.1 and never mention the hardware model.
+-/
 namespace Litex.C10
+open Litex Litex.Axi
+
+/-- **Central theorem.**  For every capability set, every address width ≥ 12 and every run in which all requests
+    the master offers are legal (A3.4.1: INCR inside one 4 KB page; WRAP of 2/4/8/16 transfers with a size-aligned
+    start; FIXED), in every prefix of the run:
+    * the beats handed over on `ax_beat`, with addresses taken at transfer-size granularity, are exactly the
+      concatenation, over the accepted requests in order, of the `len+1` beats A3.4.1 prescribes (address of
+      transfer k, `first` on beat 0, `last` on beat `len`, id copied), followed by the first `beat_count` beats of
+      the request still being held;
+    * the requests offered are exactly the requests accepted plus the one still held — none lost, none accepted
+      twice. -/
+theorem b2b_beats (caps : Caps) (aw : Nat) (haw : 12 ≤ aw) (ins : List SysIn)
+    (hlegal : ∀ r ∈ sysOffered caps aw sysInit ins, Legal aw r (effBurst caps r.burst)) :
+    sysBeats caps aw sysInit ins
+      = (sysConsumed caps aw sysInit ins).flatMap (specBeatsC caps) ++ sysPending caps ((sys caps aw).run ins) ∧
+    sysOffered caps aw sysInit ins
+      = sysConsumed caps aw sysInit ins ++ ((sys caps aw).run ins).held.toList := by
+  have h := sys_run caps aw haw ins sysInit (by simp [SysInv, sysInit]) hlegal
+  obtain ⟨_, h2, h3⟩ := h
+  have hrun : (sys caps aw).run ins = (sys caps aw).runFrom sysInit ins := rfl
+  rw [hrun]
+  exact ⟨by simpa [sysPending, sysInit] using h2, by simpa [sysInit] using h3⟩
+
+/-- Every state reached in such a run satisfies the closed-form invariant (`SysInv`): idle ⇒ both registers at
+    reset; otherwise `beat_count = k ≤ len` and `beat_offset` is the closed form `specOff` for `k` beats. -/
+theorem b2b_invariant (caps : Caps) (aw : Nat) (haw : 12 ≤ aw) (ins : List SysIn)
+    (hlegal : ∀ r ∈ sysOffered caps aw sysInit ins, Legal aw r (effBurst caps r.burst)) :
+    SysInv caps aw ((sys caps aw).run ins) :=
+  (sys_run caps aw haw ins sysInit (by simp [SysInv, sysInit]) hlegal).1
+
+/-- **Consumed exactly in the cycle of the last beat's handshake.**  In the cycle following any such run, the
+    request is accepted on `ax_burst` iff a beat is handed over on `ax_beat` in that same cycle and it carries
+    `last`. -/
+theorem b2b_consumed_with_last_beat (caps : Caps) (aw : Nat) (haw : 12 ≤ aw) (ins : List SysIn) (i : SysIn)
+    (hlegal : ∀ r ∈ sysOffered caps aw sysInit (ins ++ [i]), Legal aw r (effBurst caps r.burst)) :
+    let s := (sys caps aw).run ins
+    sysConsNow aw s i ≠ [] ↔ ∃ b, sysBeatNow aw s i = [b] ∧ b.last = true := by
+  intro s
+  have happ : ∀ (l : List SysIn) (s0 : SysState),
+      sysOffered caps aw s0 (l ++ [i]) = sysOffered caps aw s0 l ++ sysOfferNow ((sys caps aw).runFrom s0 l) i := by
+    intro l
+    induction l with
+    | nil => intro s0; simp [sysOffered, Machine.runFrom]
+    | cons x xs ih => intro s0; simp [sysOffered, Machine.runFrom, ih, sys]
+  have hl1 : ∀ r ∈ sysOffered caps aw sysInit ins, Legal aw r (effBurst caps r.burst) :=
+    fun r hr => hlegal r (by rw [happ]; simp [hr])
+  have hl2 : ∀ r ∈ sysOfferNow s i, Legal aw r (effBurst caps r.burst) :=
+    fun r hr => hlegal r (by rw [happ]; exact List.mem_append_right _ hr)
+  exact (sys_step caps aw haw s i (b2b_invariant caps aw haw ins hl1) hl2).2.2.2
+
+/-- `offset_fits`: under legality the running offset stays strictly inside (−4096, 4096), so the 13-bit signed
+    register never wraps; and it is 0 whenever the master holds nothing. -/
+theorem offset_fits (caps : Caps) (aw : Nat) (haw : 12 ≤ aw) (ins : List SysIn)
+    (hlegal : ∀ r ∈ sysOffered caps aw sysInit ins, Legal aw r (effBurst caps r.burst)) :
+    let s := (sys caps aw).run ins
+    ((-4096 : Int) < s.b.offset ∧ s.b.offset < 4096 ∧ (s.held = none → s.b.offset = 0 ∧ s.b.count = 0)) := by
+  intro s
+  have hinv := b2b_invariant caps aw haw ins hlegal
+  unfold SysInv at hinv
+  cases hh : s.held with
+  | none =>
+    have hb : s.b = b2bInit := by simpa [s, hh] using hinv
+    simp [hb, b2bInit]
+  | some r =>
+    have hinv' : Legal aw r (effBurst caps r.burst) ∧ s.b.count ≤ r.len ∧
+        s.b = expState (effBurst caps r.burst) r s.b.count := by simpa [s, hh] using hinv
+    obtain ⟨hleg, hk, hb⟩ := hinv'
+    have hf := (beat_step caps aw haw r s.b.count hleg hk).fits
+    have ho : s.b.offset = specOff (effBurst caps r.burst) r s.b.count := by
+      conv => lhs; rw [hb]
+      rfl
+    rw [ho]
+    exact ⟨hf.1, hf.2, by simp⟩
+
+/-- `wrap_detect_iff`: for the WRAP lengths 2/4/8/16 the mask test of the code fires exactly on the last
+    `2^size`-byte slot of the `(len+1)·2^size`-byte window. -/
+theorem wrap_detect_iff (len size x : Nat) (hL : len = 1 ∨ len = 3 ∨ len = 7 ∨ len = 15) :
+    (x &&& (len * 2 ^ size) = len * 2 ^ size) ↔ (x / 2 ^ size) % (len + 1) = len :=
+  wrap_detect_len hL size x
+
+/-- `b2b_fixed`: while a request whose effective type is FIXED (FIXED itself, the reserved encoding, or INCR/WRAP
+    on a module built without that capability) is being served, the offset stays 0 — every beat carries the start
+    address. -/
+theorem b2b_fixed (caps : Caps) (aw : Nat) (haw : 12 ≤ aw) (ins : List SysIn)
+    (hlegal : ∀ r ∈ sysOffered caps aw sysInit ins, Legal aw r (effBurst caps r.burst)) (r : Req)
+    (hheld : ((sys caps aw).run ins).held = some r) (hfixed : effBurst caps r.burst = BURST_FIXED) :
+    ((sys caps aw).run ins).b.offset = 0 := by
+  have hinv := b2b_invariant caps aw haw ins hlegal
+  unfold SysInv at hinv
+  rw [hheld] at hinv
+  obtain ⟨_, _, hb⟩ := hinv
+  rw [hb, hfixed]
+  exact specOff_fixed r ((sys caps aw).run ins).b.count
+
+/-! Non-vacuity: a WRAP burst of 4 × 4 bytes starting at 0x8 (not the window base) under a stalling consumer,
+    followed by an INCR burst with an unaligned start; the model delivers 0x8, 0xC, 0x0, 0x4 and then containers
+    5, 6 (addresses 0x15, 0x19 at 4-byte granularity). -/
+example :
+    let w : Req := ⟨0x8, 3, 2, BURST_WRAP, 1⟩
+    let n : Req := ⟨0x15, 1, 2, BURST_INCR, 2⟩
+    let ins : List SysIn := [⟨true, w, false⟩, ⟨false, n, true⟩, ⟨false, n, true⟩, ⟨true, n, false⟩, ⟨false, n, true⟩,
+                             ⟨true, n, true⟩, ⟨true, n, true⟩, ⟨false, w, true⟩]
+    (∀ r ∈ sysOffered Caps.all 12 sysInit ins, Legal 12 r (effBurst Caps.all r.burst)) ∧
+    (sysBeats Caps.all 12 sysInit ins).map (·.addr) = [2, 3, 0, 1, 5, 6] ∧
+    sysConsumed Caps.all 12 sysInit ins = [w, n] ∧
+    (sysBeats Caps.all 12 sysInit ins).map (·.last) = [false, false, false, true, false, true] := by
+  decide
+
+/-! Why legality is a hypothesis: an *illegal* WRAP burst (3 transfers, start 0x3) ends with the mask test firing
+    on its last beat, the later assignment overrides `beat_offset := 0`, and the stale offset −3 corrupts the next,
+    perfectly legal, single-beat INCR burst at 0x10 (delivered at 0xD). -/
+example :
+    let bad : Req := ⟨0x3, 2, 0, BURST_WRAP, 0⟩
+    let ok : Req := ⟨0x10, 0, 0, BURST_INCR, 0⟩
+    let ins : List SysIn := [⟨true, bad, true⟩, ⟨false, bad, true⟩, ⟨false, bad, true⟩, ⟨true, ok, true⟩]
+    ((sys Caps.all 12).run (ins.take 3)).b.offset = -3 ∧
+    (sysBeats Caps.all 12 sysInit ins).getLast? = some ⟨0xD, true, true, 0⟩ ∧
+    ¬ (sysBeats Caps.all 12 sysInit ins).getLast? = some ((specBeat ok BURST_INCR 0).atSize 0) := by
+  decide
+
+/-! ### Width converters: address-channel arithmetic -/
+
+/-- `upconv_arith_partial`.  Full statement (false on the code): *for every legal burst the forwarded burst
+    `(len >> k, size + k)` touches the same bytes in the same order.*  Proved under the code's own stated
+    assumption: INCR, start aligned to the wide word, `len+1` a multiple of the ratio (and `size + k` representable).
+    With `size = log2(dw_from/8)` this is exactly "full-width, wide-aligned, multiple of the ratio". -/
+theorem upconv_arith_partial (k : Nat) (r : Req) (hb : r.burst = BURST_INCR) (hs : r.size + k < 8)
+    (hal : r.addr % numBytes (r.size + k) = 0) (hmul : (r.len + 1) % 2 ^ k = 0) :
+    burstBytes (upConv k r).addr (upConv k r).len (upConv k r).size (upConv k r).burst
+      = burstBytes r.addr r.len r.size r.burst :=
+  upConv_bytes k r hb hs hal hmul
+
+/-- hypotheses satisfiable: 32 → 64, four beats at 0x20 become two. -/
+example : burstBytes (upConv 1 ⟨0x20, 3, 2, BURST_INCR, 0⟩).addr (upConv 1 ⟨0x20, 3, 2, BURST_INCR, 0⟩).len
+    (upConv 1 ⟨0x20, 3, 2, BURST_INCR, 0⟩).size BURST_INCR = List.range' 0x20 16 := by decide
+
+/-- Negative witness (known finding C10-upconv-unaligned-single-beat): 32 → 64, one 4-byte beat at 0x4 is
+    forwarded as `AW(0x4, len 0, size 3)`.  (The data path packs the beat into lane 0, see `wUp_first_beat_lane0`.) -/
+example : upConv 1 ⟨0x4, 0, 2, BURST_INCR, 0⟩ = ⟨0x4, 0, 3, BURST_INCR, 0⟩ := by decide
+
+/-- Negative witness, length not a multiple of the ratio: 32 → 64, three beats at 0x0 (12 bytes) are forwarded as
+    two 8-byte beats (16 bytes). -/
+example : ¬ burstBytes (upConv 1 ⟨0, 2, 2, BURST_INCR, 0⟩).addr (upConv 1 ⟨0, 2, 2, BURST_INCR, 0⟩).len
+    (upConv 1 ⟨0, 2, 2, BURST_INCR, 0⟩).size BURST_INCR = burstBytes 0 2 2 BURST_INCR := by decide
+
+/-- `downconv_arith_partial`.  Full statement (false on the code): *for every legal burst the forwarded burst
+    touches the same bytes in the same order.*  Proved for full-width INCR bursts whose multiplied length still
+    fits the 8-bit port: the narrow burst sweeps exactly the wide burst's containers (equal to the wide burst's own
+    bytes when its start is aligned, `downconv_arith_aligned`). -/
+theorem downconv_arith_partial (sf st : Nat) (r : Req) (hst : st ≤ sf) (hb : r.burst = BURST_INCR)
+    (hs : r.size = sf) (hfit : (r.len + 1) * 2 ^ (sf - st) ≤ 256) :
+    burstBytes (downConv sf st r).addr (downConv sf st r).len (downConv sf st r).size (downConv sf st r).burst
+      = List.range' (alignedAddr r.addr sf) ((r.len + 1) * numBytes sf) :=
+  downConv_bytes sf st r hst hb hs hfit
+
+theorem downconv_arith_aligned (sf st : Nat) (r : Req) (hst : st ≤ sf) (hb : r.burst = BURST_INCR)
+    (hs : r.size = sf) (hfit : (r.len + 1) * 2 ^ (sf - st) ≤ 256) (hal : r.addr % numBytes sf = 0) :
+    burstBytes (downConv sf st r).addr (downConv sf st r).len (downConv sf st r).size (downConv sf st r).burst
+      = burstBytes r.addr r.len r.size r.burst := by
+  rw [downconv_arith_partial sf st r hst hb hs hfit, hb, hs, incr_bytes_aligned _ _ _ hal,
+    alignedAddr_of_dvd (Nat.dvd_of_mod_eq_zero hal)]
+
+/-- hypotheses satisfiable: 64 → 32, two 8-byte beats at 0x100 become four 4-byte beats. -/
+example : downConv 3 2 ⟨0x100, 1, 3, BURST_INCR, 0⟩ = ⟨0x100, 3, 2, BURST_INCR, 0⟩ := by decide
+
+/-- Negative witness (known finding C10-downconv-narrow-burst): 64 → 32, `len = 1, size = 2` (8 bytes) becomes
+    `len = 3, size = 2` (16 bytes). -/
+example : downConv 3 2 ⟨0x100, 1, 2, BURST_INCR, 0⟩ = ⟨0x100, 3, 2, BURST_INCR, 0⟩ ∧
+    (burstBytes 0x100 1 2 BURST_INCR).length = 8 ∧ (burstBytes 0x100 3 2 BURST_INCR).length = 16 := by decide
+
+/-- Negative witness (known finding C10-downconv-fixed-burst): a FIXED burst of two 8-byte beats (the same 8 bytes
+    twice) becomes an INCR burst over 16 different bytes. -/
+example : downConv 3 2 ⟨0x100, 1, 3, BURST_FIXED, 0⟩ = ⟨0x100, 3, 2, BURST_INCR, 0⟩ ∧
+    burstBytes 0x100 1 3 BURST_FIXED = List.range' 0x100 8 ++ List.range' 0x100 8 ∧
+    burstBytes 0x100 3 2 BURST_INCR = List.range' 0x100 16 := by decide
+
+/-- Negative witness (known finding C10-downconv-len-overflow): 129 × 8 bytes need 258 narrow beats; the 8-bit
+    length wraps to `len = 1`. -/
+example : downConv 3 2 ⟨0, 128, 3, BURST_INCR, 0⟩ = ⟨0, 1, 2, BURST_INCR, 0⟩ := by decide
+
 end Litex.C10
